@@ -57,7 +57,7 @@ func init() {
 		Env:     func(tier, variant string) []string { return []string{"GOMAXPROCS=2"} },
 		Require: []string{"pairs_checked", "pairs_cross_impl_lz4", "pairs_cross_impl_zstd", "pairs_w_native_r_cgo", "pairs_w_cgo_r_native",
 			"flow_rows_compared", "raw_blocks_compared", "raw_blocks_compressed", "raw_blocks_fallback_expected", "raw_blocks_gt_64k", "flows_columns_gt_4k"},
-		CaseTimeout: 300 * time.Second,
+		CaseTimeout: 900 * time.Second, // generous: 64 helper processes per case, starved on a loaded machine
 	})
 	fw.RegisterRole("c02-write", roleWrite)
 	fw.RegisterRole("c02-dump", roleDump)
